@@ -358,18 +358,24 @@ func (c *minecraftConn) bufferPacket(packet proto.Packet, canQueue bool) (err er
 		}
 	}()
 	if canQueue {
+		// Decide between queueing and writing while holding c.mu, so that a concurrent
+		// state switch can neither release/replace the queue between the check and
+		// Queue() (which would orphan the packet) nor switch the writer's state
+		// between the check and the write.
 		c.mu.Lock()
-		playPacketQueue := c.playPacketQueue
+		queued, queueErr := c.playPacketQueue.Queue(packet)
+		if queueErr == nil && !queued {
+			_, err = c.wr.WritePacket(packet)
+		}
 		c.mu.Unlock()
-		queued, queueErr := playPacketQueue.Queue(packet)
 		if queueErr != nil {
 			return queueErr
 		}
 		if queued {
 			// Packet was queued, don't write it now
 			c.log.V(1).Info("queued packet", "packet", fmt.Sprintf("%T", packet))
-			return nil
 		}
+		return err
 	}
 	_, err = c.wr.WritePacket(packet)
 	return err
@@ -544,9 +550,8 @@ func (c *minecraftConn) SetOutboundState(s *state.Registry) {
 }
 
 func (c *minecraftConn) EnablePlayPacketQueue() {
-	if c.mu.TryLock() {
-		defer c.mu.Unlock()
-	}
+	c.mu.Lock()
+	defer c.mu.Unlock()
 	c.activatePlayPacketQueue()
 }
 
